@@ -353,8 +353,59 @@ void op_chr(Str const& x, std::size_t n, long long ch, bool converts, bool embed
     }
     sx.check("block");
 }
+// memchr/wmemchr with a count LARGER than the block while the character is present in the block: C11 7.24.5.1 requires
+// memchr to behave as if it read sequentially and stopped at the first match, so memchr(p, c, SIZE_MAX) (the rawmemchr
+// idiom) is defined; glibc treats wmemchr alike.  Only memchr/wmemchr: memcmp/memcpy/memmove/memset access all n elements.
+struct BigN {
+    std::size_t n;
+    char const* cls;
+    char const* name;
+};
+std::vector<BigN> big_counts(std::size_t size)
+{
+    constexpr auto SM = static_cast<std::size_t>(-1);
+    std::vector<BigN> v{{size + 1, "n=size+1", "size+1"}, {2 * size, "n=2*size", "2*size"}, {static_cast<std::size_t>(PTRDIFF_MAX), "n=huge", "PTRDIFF_MAX"},
+        {SM / 2 + 1, "n=huge", "SIZE_MAX/2+1"}, {SM - 1, "n=huge", "SIZE_MAX-1"}, {SM, "n=max", "SIZE_MAX"}};
+    if (sizeof(Ch) > 1) {
+        v.push_back({static_cast<std::size_t>(PTRDIFF_MAX) / sizeof(Ch), "n=huge", "PTRDIFF_MAX/sizeof(wchar_t)"});
+        v.push_back({SM / sizeof(Ch), "n=huge", "SIZE_MAX/sizeof(wchar_t)"});
+        v.push_back({SM / sizeof(Ch) + 1, "n=huge", "SIZE_MAX/sizeof(wchar_t)+1"});
+    }
+    return v;
+}
+void op_chr_big(Str const& x, Ch target) // target occurs in x; the block holds exactly x.size() elements
+{
+    std::size_t pos = x.find(target);
+    if (pos == Str::npos) { return; }
+    bool nulBefore = false;
+    for (std::size_t i = 0; i < pos; ++i) { nulBefore = nulBefore || x[i] == Ch(0); }
+    vfc::Src<Ch> sx(x, false);
+    for (BigN const& b : big_counts(x.size())) {
+        char sit[120];
+        std::snprintf(sit, sizeof sit, "%s%s,count-beyond-block,%s", pos == 0 ? "present-at-0" : "present-later", nulBefore ? ",zero-before" : "", b.cls);
+        auto const hs = vf::mix(vf::mix(vfc::hash(x), b.n), (std::uint64_t)target * 2 + 0xB16);
+        {
+            char const* op = NM("memchr(void const*)", "wmemchr(wchar_t const*)");
+            vf::crumb(SUBJ, op, sit, "block=%s (exactly %zu elements) ch=%lld n=%s", vfc::show(x).c_str(), x.size(), (long long)target, b.name);
+            auto* g = static_cast<C*>(ref::chr(sx.cp(), opaque(static_cast<Val>(target)), opaque(b.n)));
+            auto* e = static_cast<C*>(E(memchr, wmemchr)(static_cast<Void const*>(sx.cp()), opaque(static_cast<Val>(target)), opaque(b.n)));
+            vf::cover(op, hs, true);
+            vfc::eq_off("ret", vfc::off<Ch>(e, sx.b.data()), vfc::off<Ch>(g, sx.b.data()));
+        }
+        {
+            char const* op = NM("memchr(void*)", "wmemchr(wchar_t*)");
+            vf::crumb(SUBJ, op, sit, "block=%s (exactly %zu elements) ch=%lld n=%s", vfc::show(x).c_str(), x.size(), (long long)target, b.name);
+            auto* g = static_cast<Ch*>(ref::chrm(sx.p(), opaque(static_cast<Val>(target)), opaque(b.n)));
+            auto* e = static_cast<Ch*>(E(memchr, wmemchr)(static_cast<Void*>(sx.p()), opaque(static_cast<Val>(target)), opaque(b.n)));
+            vf::cover(op, hs, true);
+            vfc::eq_off("ret", vfc::off<Ch>(e, sx.b.data()), vfc::off<Ch>(g, sx.b.data()));
+        }
+    }
+    sx.check("block");
+}
 void chr_all(Str const& x, Ch (*sy)(unsigned))
 {
+    for (unsigned i = 0; i < 4; ++i) { op_chr_big(x, sy(i)); }
     for (std::size_t n = 0; n <= x.size(); ++n) {
         for (int emb = 0; emb < 2; ++emb) {
             if (emb && n == x.size()) { continue; }
@@ -472,6 +523,7 @@ void run_case(vf::Case& c)
         Ch ch         = r.coin() && lx ? x[(std::size_t)r.below(lx)] : draw();
         op_chr(x, n, (long long)ch, false, r.coin() && n < lx);
     }
+    if (lx) { op_chr_big(x, x[(std::size_t)r.below(lx)]); }
 }
 } // namespace
 
